@@ -501,6 +501,59 @@ def gen_passive_close(rng, variant=None):
     return {"mode": "net", "cfg": {"hosts": hosts}, "script": script, "flavour": "passive-close"}
 
 
+DST4 = ["0.0.0.0", "127.0.0.2", "127.255.255.254", "127.0.0.255", "10.9.9.9", "10.0.1.255", "255.255.255.255"]
+DST6 = ["::", "::1", "fd00::99", "::ffff:10.0.0.1", "::ffff:127.0.0.1", "::ffff:0.0.0.0", "::2"]
+
+
+def gen_dst_classes(rng):
+    """destination classes: unspecified, other 127/8 addresses, unclaimed unicast, broadcast-looking,
+    v4-mapped v6, own and foreign addresses -- for UDP send_to and TCP connect, from wildcard- and
+    concretely-bound sockets, with wildcard and concrete sockets on the same ports on every host.
+    Fabric::host_for_ip and Kernel::is_local decide delivery; nobody owns the unspecified address."""
+    hosts = [["10.0.0.1", "fd00::1:1"], ["10.0.1.1", "fd00::2:1"], ["10.0.2.1"]]
+    P = rng.choice([5000, 6000, 9000])
+    script, senders = [], []          # senders: (handle, family)
+    nh = 0
+    for h, addrs in enumerate(hosts):
+        for ip, port in [("0.0.0.0", P), ("::", P), (addrs[0], P + 1)] + ([(addrs[1], P + 1)] if len(addrs) > 1 else []):
+            script.append(["bind_udp", h, ip, port])
+            senders.append((nh, 6 if ":" in ip else 4, h))
+            nh += 1
+    listeners = []
+    for h, ip, port in [(0, "0.0.0.0", P), (0, "::", P), (1, "10.0.1.1", P), (1, "0.0.0.0", P + 1), (2, "0.0.0.0", P)]:
+        script.append(["listen", h, ip, port])
+        listeners.append(nh)
+        nh += 1
+    tag = 100
+    own = {4: lambda h: hosts[h][0], 6: lambda h: hosts[h][1] if len(hosts[h]) > 1 else "fd00::1:1"}
+    other = {4: lambda h: hosts[(h + 1) % 3][0], 6: lambda h: hosts[(h + 1) % 2][1]}
+    # every wildcard sender always probes the unspecified address on its own port; the rest is sampled
+    chosen = [x for x in senders if x[0] % 4 in (0, 1) or len(hosts[x[2]]) == 1] + rng.sample(senders, 3)
+    for hd, f, h in chosen:
+        dsts = (DST4 if f == 4 else DST6) + [own[f](h), other[f](h)]
+        if rng.random() < 0.3:
+            dsts = dsts + [("::" if f == 4 else "0.0.0.0")]          # family mismatch
+        for d in dsts:
+            for port in (P, P + 1):
+                tag += 1
+                script.append(["send_to", hd, [d, port], tag])
+        if rng.random() < 0.5:
+            script += [["pump"], ["recv_all"]]
+    script += [["pump"], ["recv_all"]]
+    conns = []
+    for h in range(3):
+        for d in ["0.0.0.0", "127.0.0.2", "10.9.9.9", "10.0.1.255", "::", "::ffff:10.0.0.1", "fd00::99", hosts[(h + 1) % 3][0]]:
+            port = rng.choice([P, P + 1])
+            script += [["connect", h, [d, port]], ["pump"], ["poll", nh]]
+            conns.append(nh)
+            nh += 1
+    for l in listeners:
+        script += [["accept", l], ["accept", l]]
+        nh += 2
+    script += [["pump"], ["recv_all"]]
+    return {"mode": "net", "cfg": {"hosts": hosts}, "script": script, "flavour": "dst-classes"}
+
+
 def gen_alloc(rng):
     lo = rng.choice([1, 10, 1000, 49152, 65530])
     size = rng.randrange(1, 7)
